@@ -3,6 +3,7 @@
 package message
 
 import (
+	"fmt"
 	"context"
 	"errors"
 	"sync"
@@ -49,6 +50,10 @@ func (p *scriptedPublisher) Publish(topic string, messages ...*Message) error {
 		return errScripted
 	case 2:
 		panic("scripted publisher panic")
+	case 3:
+		return context.Canceled // a context-aware publisher whose publish was aborted
+	case 4:
+		return fmt.Errorf("publish aborted: %w", context.Canceled)
 	}
 	return nil
 }
